@@ -81,6 +81,11 @@ fn drop_empty_rows_of_one_column_grids(v: &V) -> V {
     }
 }
 
+/// a line made of cell separators and blanks only (at least one `,`)
+fn has_separator_only_line(text: &str) -> bool {
+    text.split(|c| c == '\n' || c == '\r').any(|l| l.contains(',') && l.chars().all(|c| c == ',' || c == ' ' || c == '\t'))
+}
+
 /// Zinc: T accepted => encode(decode(T)) decodes to the same value and is a fixed point
 pub fn zinc_stable(text: &str) -> Result<bool, (String, String)> {
     let v1 = match guarded(|| from_str(text)) {
@@ -110,7 +115,14 @@ pub fn zinc_stable(text: &str) -> Result<bool, (String, String)> {
             if let Ok(Ok(t)) = guarded(|| to_zinc_string(&lr)) {
                 if let Ok(Ok(b)) = guarded(|| from_str(&t)) {
                     if same_strict(&reduced, &from_lib(&b)).is_ok() {
-                        return Err(("zinc-normalisation-loses:empty-row-of-one-column-grid".into(), format!("{d}; {text:?} -> {t2:?}")));
+                        // the recorded finding is about rows spelled with separators only (`,`):
+                        // an empty row obtained from any other spelling is a different violation
+                        let sig = if has_separator_only_line(text) {
+                            "zinc-normalisation-loses:empty-row-of-one-column-grid"
+                        } else {
+                            "zinc-normalisation-loses:empty-row-of-one-column-grid-from-another-spelling"
+                        };
+                        return Err((sig.into(), format!("{d}; {text:?} -> {t2:?}")));
                     }
                 }
             }
